@@ -54,7 +54,22 @@ OptionCases ==
             MkFS(<<Fdf("a", 0, U(48)), Fdf("b", 1, I(32))>>, <<Big("b")>>),
             MkFS(<<Fdf("a", 0, U(32)), Fdf("b", 1, U(8)), Fdf("c", 2, U(32))>>,
                  << [name |-> "c", fields |-> <<[name |-> "mux_count", value |-> [i |-> 4]], [name |-> "mux_signal", value |-> [s |-> "b"]]>>] >>) }
-FitCases == SizeCases \cup VarCases \cup ArrayCases \cup OptionCases
+(* the largest enumerator declared first; the enum inside an array and a nested struct *)
+EnumDesc(w) == [name |-> "Ew", items |-> <<EIt("Hi", 2^w - 1), EIt("Mid", 1), EIt("Lo", 0)>>]
+EnumOrderCases ==
+    { MkF(<<>>, <<Fdf("a", 0, U(62)), Fdf("b", 1, En("Ew"))>>, <<EnumDesc(w)>>) : w \in {2, 3, 4, 8} }
+    \cup { MkF(<<>>, <<Fdf("a", 0, U(56)), Fdf("b", 1, Arr(En("Ew"), 2))>>, <<EnumDesc(w)>>) : w \in {4, 5} }
+    \cup { MkF(Sin(<<Fdf("p", 0, En("Ew")), Fdf("q", 1, U(30))>>), <<Fdf("a", 0, U(32)), Fdf("b", 1, St("Sin"))>>, <<EnumDesc(w)>>) : w \in {2, 3} }
+(* a binding whose protocol is spelled differently (CAN, Can) is NOT a CAN binding: next to a small real one it is neither
+   size-checked nor generated, whatever its size *)
+OtherSpelling(p, w) ==
+    [structs |-> <<[name |-> "Msg", fields |-> <<Fdf("a", 0, U(8))>>], [name |-> "Big", fields |-> <<Fdf("a", 0, U(64)), Fdf("b", 1, U(w))>>]>>,
+     enums |-> <<>>,
+     impls |-> <<Bind(<<>>), [name |-> "Big", protocol |-> p, type |-> "Big",
+                              fields |-> <<[name |-> "id", value |-> [i |-> 34]], [name |-> "device", value |-> [s |-> "ecu"]]>>, signals |-> <<>>]>>,
+     services |-> <<>>, devices |-> <<>>]
+SpellingCases == { OtherSpelling(p, w) : p \in {"CAN", "Can", "canfd"}, w \in {8, 64} }
+FitCases == SizeCases \cup VarCases \cup ArrayCases \cup OptionCases \cup EnumOrderCases \cup SpellingCases
 
 VARIABLES stage, S
 vars == <<stage, S>>
@@ -62,8 +77,8 @@ Init == stage = 0 /\ S = <<>>
 Next == stage = 0 /\ stage' = 1 /\ S' \in FitCases
 Spec == Init /\ [][Next]_vars
 (* a schema is described only when every CAN binding fits; what is described is well placed *)
-EmittedImpliesFits == stage = 1 => (PluginCan(S, "dbc") <=> \A im \in Range(S.impls) : Fits(S, im))
-EmittedIsWellPlaced == (stage = 1 /\ PluginCan(S, "dbc")) => \A im \in Range(S.impls) : WellPlaced(DbcMessage(S, im))
+EmittedImpliesFits == stage = 1 => (PluginCan(S, "dbc") <=> \A im \in Range(CanImpls(S)) : Fits(S, im))
+EmittedIsWellPlaced == (stage = 1 /\ PluginCan(S, "dbc")) => \A im \in Range(CanImpls(S)) : WellPlaced(DbcMessage(S, im))
 Emit == stage = 1 => PrintT("OUT " \o ToJson([schema |-> S, fits |-> IF PluginCan(S, "dbc") THEN 1 ELSE 0,
                                               bits |-> IF FixedSize(S, St("Msg")) THEN BitsOf(S, St("Msg")) ELSE 0]))
 =============================================================================
